@@ -57,7 +57,7 @@ def _run_case_symbolic(args):
     try:
         signal.signal(signal.SIGALRM, _alarm)
         # repeating: a bare `except:` in the code under test may swallow the first one
-        signal.setitimer(signal.ITIMER_REAL, float(os.environ.get('VERIF_CASE_TIMEOUT', '900' if tier == 'quick' else '3600')), 5.0)
+        signal.setitimer(signal.ITIMER_REAL, float(os.environ.get('VERIF_CASE_TIMEOUT', '900' if tier == 'quick' else '1500')), 5.0)
     except (ValueError, AttributeError):
         pass
     try:
@@ -139,7 +139,7 @@ def _child(conn, item):
 def _run_all(ctx, work, jobs, tier, cases):
     """one process per case with a HARD wall-clock limit: a solver call that ignores its resource limit, or a worker killed by a
     stack overflow, can neither hang the run nor be taken for success (reported as an unknown obligation of that case)"""
-    limit = float(os.environ.get('VERIF_CASE_TIMEOUT', '900' if tier == 'quick' else '3600')) + 120.0
+    limit = float(os.environ.get('VERIF_CASE_TIMEOUT', '900' if tier == 'quick' else '1500')) + 120.0
     pending = list(work)
     running = []
     results = {}
